@@ -150,6 +150,7 @@ type LeafOpts struct {
 	SKI    []byte
 	NoKU   bool   // no key usage extension at all
 	RawSub []byte // complete DER subject name (instead of CN)
+	IsCA   bool             // basicConstraints CA:TRUE and keyCertSign | cRLSign on an end-entity position certificate
 	Extra  []pkix.Extension // raw extensions (override what the other fields would produce, e.g. the authority key identifier)
 }
 
@@ -187,6 +188,12 @@ func (ca *CA) IssueLeaf(o LeafOpts) *Leaf {
 	}
 	if o.RawSub != nil {
 		tmpl.RawSubject = o.RawSub
+	}
+	if o.IsCA {
+		tmpl.IsCA, tmpl.BasicConstraintsValid = true, true
+		if !o.NoKU {
+			tmpl.KeyUsage |= x509.KeyUsageCertSign | x509.KeyUsageCRLSign
+		}
 	}
 	tmpl.ExtraExtensions = o.Extra
 	der, err := x509.CreateCertificate(rand.Reader, tmpl, ca.Cert, key.Public(), ca.Key)
